@@ -164,10 +164,12 @@ def body_weight(rec, c):
                 if Fraction(cj, n) >= uf:
                     allowed.append(j)
                     break
-            # ties at exact equality accept either neighbour (measure zero)
+            # ties accept either neighbour (measure zero): exact equality, or equality after float rounding (the draw 0.1 is not 1/10,
+            # but 0.1 * 10 == 1.0 in floating point, which is what the code computes)
+            eps = Fraction(1, 2**48)
             for j, cj in enumerate(cums):
-                if Fraction(cj, n) == uf and j + 1 < len(cums):
-                    allowed.append(j + 1)
+                if abs(Fraction(cj, n) - uf) <= eps:
+                    allowed += [x for x in (j, j + 1) if x < len(cums)]
             idxs = [pp.config[1] for pp in seg.phasepoints]
             ok = any(idxs == list(range(segs[j][0], segs[j][1] + 1)) for j in allowed)
             rec.check(ok, "wf:selection", f"orders={o} [{left},{right}) u={u} picked frames {idxs}, allowed segs {[segs[j] for j in allowed]}")
